@@ -99,6 +99,8 @@ def run(ctx):
                         norm.show(N(ix, ex9.c(mv[2]["quote_asset_amount"])))[:120], norm.show(N(ix, ex9.c(sym.field(tv[-1], "open_notional"))))[:120])
         ctx.inst("R04.9", "recorded-notional-is-swapped-quote:OpenPosition", bad9 is None and n9 > 0, ex9.fn.where(),
                  bad9 or "%d increase emissions: SwapInput.quote_asset_amount == recorded open_notional" % n9)
+    ctx.rule("R04.10", "every settlement (remain-margin computation) of a chain step is made on the stored record: its own margin, funding checkpoint and size - not a copy already netted of funding or clamped (the bad-debt test would not see what exceeds the margin)", 6)
+    settled_on_stored_record_instances(ctx, em, "R04.10")
     from .balance import balance_instances
     ctx.rule("R04.8", "the vault balance that sizes insurance draws and payouts is the engine's own balance of the collateral token: the balance query asks for (token, account) as given in both collateral arms, every engine call site passes (config.eligible_collateral, env.contract.address)", 3)
     balance_instances(ctx, "R04.8")
